@@ -1,7 +1,7 @@
 SPECIFICATION Spec
-CONSTANT WithUnkillable = TRUE
+CONSTANT WithUnkillable = FALSE
 CONSTANT Fix_BoundFinalWait = TRUE
-CONSTANT Fix_GuardEndmarkerCallbacks = TRUE
+CONSTANT Fix_GuardEndmarkerCallbacks = FALSE
 CONSTANT WithLinger = FALSE
 CONSTANT Fix_HardExit = TRUE
 CONSTANT KillOnTimeout = TRUE
